@@ -8,6 +8,7 @@ import (
 	"io"
 	"net/url"
 	"os"
+	"regexp"
 	"sort"
 	"strings"
 	"sync"
@@ -68,6 +69,8 @@ type result struct {
 func (r *result) viol(step int, kind, cause, detail string) {
 	r.Violations = append(r.Violations, violation{Kind: kind, Cause: cause, Detail: detail, Step: step})
 }
+
+var secretRe = regexp.MustCompile(`name="secret" value="([0-9a-f]+)"`)
 
 const grantType = "urn:ietf:params:oauth:grant-type:jwt-bearer"
 
@@ -332,11 +335,14 @@ func (w *world) buildGrant(req map[string]string) (string, map[string]interface{
 		claims["vcs"] = []interface{}{w.orgs["R"].cred}
 		ids = append(ids, w.orgs["R"].cred.ID.String())
 	case "tampered":
-		m := toMap(w.authCred["ok"])
+		m := toMap(w.authCred["ok:"+reqOrg])
 		m["credentialSubject"].(map[string]interface{})["purposeOfUse"] = "everything"
 		claims["vcs"] = []interface{}{m}
 	default:
 		c := w.authCred[req["vcs"]]
+		if req["vcs"] == "ok" {
+			c = w.authCred["ok:"+reqOrg]
+		}
 		claims["vcs"] = []interface{}{c}
 		ids = append(ids, c.ID.String())
 	}
